@@ -4,7 +4,7 @@ import os
 
 COMMON_ASSUMPTIONS = [
     "pyvc is a home-made VC generator: its encoding of Python semantics (DESIGN.md sections 2 and 12.6) is trusted; guards: 'ensures False' canaries on every "
-    "unit, library-contract conformance against the real numpy/Python (selftest/, thorough tier), 100 independently seeded property-breaking changes (seeded/) "
+    "unit, library-contract conformance against the real numpy/Python (selftest/, thorough tier), 110+ independently seeded property-breaking changes (seeded/) "
     "that the checks must report and 17 behaviour-preserving refactorings (refactors/) on which they must stay quiet",
     "numpy int64 RESULTS are treated as mathematical integers (no wrap-around: vertex indices < 4^k, k <= 31; position sums < 2^63); the conversion of a Python "
     "int operand of a numpy.sum result to int64 (OverflowError, NumPy >= 2) IS modelled, scalars read out of arrays by indexing are not tagged",
